@@ -11,8 +11,10 @@ open GoPlugin Stdio Props.C11
 `copyChan` reads into its whole non-empty array and sends exactly `data[:n]`;
 the only messages `StreamStdio` skips are empty ones; what it tags the
 os.Stdout (os.Stderr) channel with is what the host writes to SyncStdout
-(SyncStderr); on net/rpc both sides use the same, distinct yamux streams for
-the two pipes. -/
+(SyncStderr); the context of the StreamStdio call is the client's done-context
+with no deadline on the way (fails on a tree that derives it with
+`context.WithTimeout`: witness `Props.C11.stream_deadline_witness`); on net/rpc
+both sides use the same, distinct yamux streams for the two pipes. -/
 theorem facts_good : Facts.stdio.Good := by decide
 
 theorem holds_per_stream_exact_grpc (outWrites errWrites outReads errReads : List Bytes) (sel : List Msg)
@@ -47,5 +49,19 @@ theorem holds_before_attach_retained_netrpc
     d.out <+: preOut.flatten ++ postOut.flatten ∧ (d.out <+: preOut.flatten ∨ preOut.flatten <+: d.out) ∧
     d.err <+: preErr.flatten ++ postErr.flatten ∧ (d.err <+: preErr.flatten ∨ preErr.flatten <+: d.err) :=
   before_attach_retained_netrpc _ facts_good.2 _ _ _ _ _ _ _ hout herr hw k
+
+theorem holds_late_output_delivered_grpc (connEnd : Nat) (tsel : List (Nat × Msg))
+    (hlive : ∀ tm ∈ tsel, tm.1 < connEnd) :
+    grpcDeliverTimed Facts.stdio connEnd tsel = grpcDeliver Facts.stdio (tsel.map (·.2)) :=
+  late_output_delivered_grpc _ facts_good.1 connEnd tsel hlive
+
+theorem holds_per_stream_exact_grpc_timed (connEnd : Nat)
+    (outWrites errWrites outReads errReads : List Bytes) (tsel : List (Nat × Msg))
+    (hout : ReaderDelivers Facts.stdio.chunk outWrites.flatten outReads)
+    (herr : ReaderDelivers Facts.stdio.chunk errWrites.flatten errReads)
+    (hsel : GrpcSelect Facts.stdio outReads errReads (tsel.map (·.2)))
+    (hlive : ∀ tm ∈ tsel, tm.1 < connEnd) :
+    grpcDeliverTimed Facts.stdio connEnd tsel = ⟨outWrites.flatten, errWrites.flatten⟩ :=
+  per_stream_exact_grpc_timed _ facts_good.1 connEnd _ _ _ _ tsel hout herr hsel hlive
 
 end GoPlugin.Instance.C11
